@@ -714,6 +714,20 @@ def gen_programs(rng, wl: Workload) -> list[list]:
     return programs
 
 
+def step_cap_for(wl: Workload, programs: list, opcodes: bool) -> int:
+    """Generous bound on the kio line steps a set of programs may need: proportional to the
+    bytes they encode/decode (a 16 384-element array alone is ~10^5 steps), never a verdict
+    on a tree that is merely slower."""
+    total = 0
+    for prog in programs:
+        for op in prog:
+            if len(op) > 2 and isinstance(op[2], int) and op[2] >= 0 and wl.gold[op[1]][op[2]] is not None:
+                reps = op[3] if op[0] in ("enc", "dec") and len(op) > 3 and isinstance(op[3], int) else 1
+                total += len(wl.gold[op[1]][op[2]][0]) * max(1, reps)
+    cap = 400_000 + 40 * total
+    return cap * 12 if opcodes else cap
+
+
 def draw_policy(rng, wl: Workload, programs: list) -> tuple[dict, int]:
     r = rng.random()
     if r < 0.2:
@@ -835,7 +849,8 @@ def run_task(task: dict) -> dict:
             found = None
             for j in js:
                 forced = [[-1, 0, "start"], [j + 1, 1], [0, 0, "exit"]]
-                res = forkrun.run(_threads_child, wl.to_json(), wl.gold, programs, {"kind": "forced", "p": 0.0}, 0, forced, 400_000)
+                res = forkrun.run(_threads_child, wl.to_json(), wl.gold, programs, {"kind": "forced", "p": 0.0}, 0, forced,
+                                  step_cap_for(wl, programs, False))
                 _note_stalls(res, stats)
                 stats.inc("evaluations")
                 stats.inc("sweep_preemption_points")
@@ -850,7 +865,8 @@ def run_task(task: dict) -> dict:
             if found is not None:
                 j, f = found
                 report(f["signature"], run_seed, {"layer": "T", "workload": wl.to_json(), "programs": programs,
-                                                            "schedule": [[-1, 0, "start"], [j + 1, 1], [0, 0, "exit"]], "step_cap": 400_000})
+                                                            "schedule": [[-1, 0, "start"], [j + 1, 1], [0, 0, "exit"]],
+                                                            "step_cap": step_cap_for(wl, programs, False)})
             log.add("S", idx, wl.pool[0], op_a[0], op_b[0], n_a, len(js), found and [found[0], found[1]["signature"]])
             if len(samples) < 1:
                 samples.append({"layer": "S", "class": wl.pool[0], "thread_A_first_use": op_a[0], "thread_B_complete_first_use": op_b[0],
@@ -867,7 +883,7 @@ def run_task(task: dict) -> dict:
                 policy = {**policy, "p": 0.01}
                 stats.inc("policy_throttled_because_tree_blocks")
             sched_seed = rng.getrandbits(48)
-            step_cap = 4_000_000 if policy.get("opcodes") else 400_000
+            step_cap = step_cap_for(wl, programs, bool(policy.get("opcodes")))
             res = forkrun.run(_threads_child, wl.to_json(), wl.gold, programs, policy, sched_seed, None, step_cap, timeout_s=900)
             _note_stalls(res, stats)
             stats.inc("evaluations")
@@ -917,7 +933,9 @@ def evaluate(scenario: dict):
             return None
         res = forkrun.run(_threads_child, wl.to_json(), wl.gold, scenario["programs"],
                           {"kind": "forced", "p": 0.0, "opcodes": bool(scenario.get("opcodes"))}, 0,
-                          scenario["schedule"], scenario.get("step_cap", 400_000), timeout_s=600)
+                          scenario["schedule"],
+                          max(scenario.get("step_cap", 0), step_cap_for(wl, scenario["programs"], bool(scenario.get("opcodes")))),
+                          timeout_s=600)
         return res["fail"]["signature"] if res["fail"] else None
     return None
 
